@@ -100,7 +100,11 @@ pub fn write_folded_block<W: Write>(
             if in_space_run && ch != ' ' {
                 // run_end = previous char boundary (prev_i + prev_ch_len)
                 let run_end = prev_i + prev_ch_len;
-                last_space_run = Some((run_start, run_end, run_len));
+                // Not a place to break when a tab follows: the next line would start with
+                // the tab, which makes it more-indented text whose line break is kept.
+                if ch != '\t' {
+                    last_space_run = Some((run_start, run_end, run_len));
+                }
                 in_space_run = false;
                 run_len = 0;
             }
